@@ -717,7 +717,12 @@ func decodeGates(res *Result, i int, tok []byte) (gateInvalid, gateValid int) {
 	return
 }
 
-func makeEvidToken(cfg *EvidCfg, live []psatoken.IClaims, td TokenDesc, led ledger) []byte {
+func makeEvidToken(cfg *EvidCfg, live []psatoken.IClaims, td TokenDesc, led ledger) (out []byte) {
+	defer func() {
+		if r := recover(); r != nil {
+			out = []byte{0xd2}
+		}
+	}()
 	if td.Kind == "garbage" {
 		return append([]byte{}, td.X...)
 	}
